@@ -1065,20 +1065,31 @@ def r_sortedpos(prog, tier):
 
 # ------------------------------------------------------------------------------------ R-DISCONT
 
+def _num_atom(f, text):
+    """Does the atom denote a token number: reads .data['num'], or is a local defined from such a read?"""
+    if "data['num']" in text:
+        return True
+    if text.isidentifier() and text in f.locals:
+        for (_, v) in name_defs(f, text):
+            if isinstance(v, ast.AST) and "data['num']" in unparse(v):
+                return True
+            if isinstance(v, tuple) and v[0] == 'aug' and "data['num']" in unparse(v[1]):
+                return True
+    return False
+
+
 def _gap_predicates(f):
-    """Compare nodes relating x + 1 to y (the gap test between consecutive token numbers)."""
+    """[(Compare node, x, y, c)] for comparisons between two token numbers, normalised to  x - y <= c."""
+    from ..linear import norm_compare, difference_bound
     out = []
     for n in walk_own(f.node):
         if isinstance(n, ast.Compare) and len(n.ops) == 1 and isinstance(n.ops[0], (ast.Lt, ast.Gt, ast.LtE, ast.GtE)):
-            for side in (n.left, n.comparators[0]):
-                if isinstance(side, ast.BinOp) and isinstance(side.op, ast.Add) and \
-                        (unparse(side.right) == '1' or unparse(side.left) == '1'):
-                    other = n.comparators[0] if side is n.left else n.left
-                    txt = unparse(n)
-                    # token numbers only: the comparison mentions a 'num' field or values derived from one
-                    if 'len(' in txt:
-                        continue
-                    out.append(n)
+            db = difference_bound(norm_compare(f, n))
+            if db is None:
+                continue
+            x, y, c = db
+            if _num_atom(f, x) and _num_atom(f, y):
+                out.append((n, x, y, c))
     return out
 
 
@@ -1095,19 +1106,21 @@ def r_discont(prog, tier):
         preds = _gap_predicates(f)
         if not preds:
             obs.append(Ob('R-DISCONT', f.fq, 'the function contains the gap test between consecutive tokens', None,
-                          'no comparison of the form a + 1 < b found (the test may be written differently)',
+                          'no comparison between two token numbers found (the test may be written differently)',
                           construct='gap-none'))
             continue
-        for p in preds:
-            nt = norm_test(p, True)
-            strict = nt[0] == 'cmp' and nt[2] == '<' and (nt[1].endswith('+ 1') or nt[1].startswith('1 +'))
-            loose = nt[0] == 'cmp' and nt[2] == '<=' and (nt[1].endswith('+ 1') or nt[1].startswith('1 +'))
-            rev = nt[0] == 'cmp' and (nt[3].endswith('+ 1') or nt[3].startswith('1 +'))
-            ok = True if strict else (False if (loose or rev) else None)
-            obs.append(Ob('R-DISCONT', f.fq, 'gap test `%s` is the shared predicate  a + 1 < b' % unparse(p), ok,
-                          'normal form %s' % (nt,) if ok else 'normal form %s is not a + 1 < b: this site disagrees '
-                          'with the others on adjacent or equal numbers' % (nt,), construct='gap:' + unparse(p),
-                          line=p.lineno))
+        for (p, x, y, c) in preds:
+            # x - y <= c.   gap test: earlier - later <= -2 (later - earlier >= 2); its negation: later - earlier <= 1
+            if c in (-2, 1):
+                ok, why = True, 'normal form  %s - %s <= %d : a gap is a difference of at least 2 between consecutive tokens' % (x, y, c)
+            elif c in (-3, -1, 0, 2):
+                ok = False
+                why = 'normal form  %s - %s <= %d  is off by one against the shared predicate (difference >= 2): ' % (x, y, c) + (
+                    'a gap of exactly one token is not seen' if c in (-3, 2) else 'adjacent tokens already count as a gap')
+            else:
+                ok, why = None, 'normal form  %s - %s <= %d  is not a gap test this rule knows' % (x, y, c)
+            obs.append(Ob('R-DISCONT', f.fq, 'gap test `%s` is the shared predicate  a + 1 < b' % unparse(p), ok, why,
+                          construct='gap:' + unparse(p), line=p.lineno))
     # chain facts
     f = prog.func('treeanalysis', 'gap_degree')
     rets = [n for n in walk_own(f.node) if isinstance(n, ast.Return)]
